@@ -217,7 +217,21 @@ func genC02(g *Rng, tier string, emit func(Op)) {
 		emit(listOp(nil, []any{}, s.ctx, s.nonce, s.issig, nil, "empty", "reject"))
 		emit(listOp(s.keys, s.trees[:n-1], s.ctx, s.nonce, s.issig, nil, "fewer-proofs-than-keys", "reject"))
 		emit(listOp(s.keys[:n-1], s.trees, s.ctx, s.nonce, s.issig, nil, "fewer-keys-than-proofs", "reject|decode-error"))
-		// key substitution
+		// key substitution, also on objects that have been verified under their own keys before
+		for i := range s.keys {
+			ks := append([]*KeyPair{}, s.keys...)
+			for _, alt := range pool {
+				if alt.id != ks[i].id {
+					ks[i] = alt
+					break
+				}
+			}
+			if ks[i].id != s.keys[i].id && len(ks[i].pk.R) >= len(s.keys[i].pk.R) {
+				o := listOp(s.keys, s.trees, s.ctx, s.nonce, s.issig, nil, "identity-then-other-keys", "accept")
+				o["then_keys"] = keyIDs(ks)
+				emit(o)
+			}
+		}
 		for i := range s.keys {
 			ks := append([]*KeyPair{}, s.keys...)
 			for _, alt := range pool {
